@@ -92,7 +92,9 @@ func modelStep(p dkgProto, st mState, sym int) (allowed []string, next mState, r
 		if running {
 			return []string{"ii"}, st, true
 		}
-		return []string{"st", "ii"}, st, true
+		// not running: the statement gives the state-transition error for every handler call,
+		// ForceDisqualify and End before Start and after End, whatever the index is
+		return []string{"st"}, st, true
 	default:
 		if running {
 			return []string{"ok"}, st, false
